@@ -10,6 +10,7 @@ import (
 	"log/slog"
 	"os"
 	"path"
+	"path/filepath"
 	"slices"
 	"strings"
 	"sync"
@@ -96,14 +97,26 @@ func WithThrottle(count int) Opts {
 	}
 }
 
+// gcKey returns the modRefs key of the layout a ref points to.
+// The path is normalized so that different spellings of the same directory
+// ("dir", "dir/", "./dir", or the absolute path) share one entry.
+func gcKey(r ref.Ref) string {
+	key := filepath.Clean(r.Path)
+	if abs, err := filepath.Abs(key); err == nil {
+		key = abs
+	}
+	return key
+}
+
 // GCLock is used to prevent GC on a ref
 func (o *OCIDir) GCLock(r ref.Ref) {
 	o.mu.Lock()
 	defer o.mu.Unlock()
-	if gc, ok := o.modRefs[r.Path]; ok && gc != nil {
+	key := gcKey(r)
+	if gc, ok := o.modRefs[key]; ok && gc != nil {
 		gc.locks++
 	} else {
-		o.modRefs[r.Path] = &ociGC{locks: 1}
+		o.modRefs[key] = &ociGC{locks: 1}
 	}
 }
 
@@ -111,7 +124,7 @@ func (o *OCIDir) GCLock(r ref.Ref) {
 func (o *OCIDir) GCUnlock(r ref.Ref) {
 	o.mu.Lock()
 	defer o.mu.Unlock()
-	if gc, ok := o.modRefs[r.Path]; ok && gc != nil && gc.locks > 0 {
+	if gc, ok := o.modRefs[gcKey(r)]; ok && gc != nil && gc.locks > 0 {
 		gc.locks--
 	}
 }
@@ -317,10 +330,11 @@ func (o *OCIDir) valid(dir string, locked bool) error {
 }
 
 func (o *OCIDir) refMod(r ref.Ref) {
-	if gc, ok := o.modRefs[r.Path]; ok && gc != nil {
+	key := gcKey(r)
+	if gc, ok := o.modRefs[key]; ok && gc != nil {
 		gc.mod = true
 	} else {
-		o.modRefs[r.Path] = &ociGC{mod: true}
+		o.modRefs[key] = &ociGC{mod: true}
 	}
 }
 
